@@ -147,9 +147,9 @@ def handle (args : List String) : String :=
         | .sym s => "sym:" ++ showShape s
         | .nothing => "none")
      | _, _ => bad)
-  | ["evIdentity", i, o] =>
+  | ["evIdentity", gi, i, o] =>
     (match parseOShape i, parseOShape o with
-     | some i, some o => showOShape (evalIdentity i o) | _, _ => bad)
+     | some i, some o => showOShape (evalIdentity (gi == "1") i o) | _, _ => bad)
   | ["materialize", o, c] =>
     (match parseOShape o with
      | some o => showOInts (materialize o (c == "1")) | _ => bad)
